@@ -884,8 +884,8 @@ func (g *gen) dotimes(t typ, d int) (node, bool) {
 	var n node
 	if g.r.Chance(70) {
 		z := int64(g.cnt(4))
-		if g.r.Chance(4) {
-			z = -1
+		if g.r.Chance(10) { // a negative count: no iteration, the variable ends as 0
+			z = int64(-1 - g.r.Intn(3))
 		}
 		n = node{fmt.Sprint(z), gInt(z)}
 		if g.r.Chance(25) {
